@@ -3,4 +3,4 @@ Require Import ExtrOcamlBasic.
 From GoPdf.Base Require Import WireAnchor.
 From GoPdf.C19 Require Import ErrFlow Chain Sink.
 Separate Extraction wire_anchor open_prog get_prog drain_prog decode_prog seq_prog outcomes outcome_at
-  clean_class clean_recorded clean_reads chain_outcomes sink_calls surface_verdicts table_run promote_run.
+  should_exit clean_class clean_recorded clean_reads predictions_partial chain_outcomes sink_calls surface_verdicts close_verdicts table_run promote_run.
